@@ -99,6 +99,9 @@ func configs() []*cfg {
 		{Name: "retry-after-refused", From: "/", Base: "/base", Retry: "closed", Up: retryUp},
 		{Name: "keepalive-off", From: "/", Base: "/base/", Extra: "keepalive 0"},
 		{Name: "retry-after-refused-credentialed-upstream", From: "/", Base: "/base", Retry: "closed-creds", Up: retryUp[:1]},
+		// the same field set by two rules: the later line wins
+		{Name: "fields-set-twice", From: "/", Up: append(append([]rule{}, up...), rule{Kind: "set", Name: "X-Set", Value: "second {method}"}, rule{Kind: "set", Name: "X-Twice", Value: "one"}, rule{Kind: "set", Name: "X-Twice", Value: "two"}),
+			Down: append(append([]rule{}, down...), rule{Kind: "set", Name: "X-DSet", Value: "second"}, rule{Kind: "set", Name: "Cache-Control", Value: "no-store"}, rule{Kind: "set", Name: "Cache-Control", Value: "private"})},
 		// `timeout` bounds connecting to the upstream, not how long a response may stream
 		{Name: "short-connect-timeout", From: "/", Extra: "timeout 400ms"},
 	}
